@@ -106,7 +106,7 @@ def traversal(rep, prog):
     mem = prog.find_member(m, cls, '__post_init__') if cls is not None else None
     if not mem:
         rep.ob('R07.traversal', 'Circuit:ground', None, 'Circuit.__post_init__ not found'); return
-    ev2 = Evaluator(prog)
+    ev2 = Evaluator(prog); ev2.self_class = (m, cls)          # initialisation split into private methods is followed
     ev2.call_fn(mem[1], mem[0], [A('self')], {}, {'__parent__': None}, 1)
     gn = ev2.stores.get(('self', 'ground_node'))
     # expected: IF len(components)==0: '' ; IF no ground: components[0].nodes[0] else ground_nodes[0]
